@@ -85,7 +85,11 @@ pub fn judge(c: &Pair, st: &mut Stats) -> Verdict {
 }
 
 fn gen_case(t: &mut Tape) -> Pair {
-    let x = match t.weighted(&[4, 4, 3, 3, 2]) {
+    let x = match t.weighted(&[4, 4, 3, 3, 2, 2]) {
+        5 => {
+            // valid UTF-8 with a multi-byte character right after (or before) the first CR: closed for the &str entry points too
+            gen::gen_multibyte_cr(t).into_bytes()
+        }
         0 => {
             // CRLF-terminated lines with 0..6 fields for each protocol
             let proto = *t.pick(&["TCP4", "TCP6", "UNKNOWN", "TCP", "", "tcp4"]);
